@@ -17,13 +17,19 @@ def _run(pid, repo, env, seed, budget="20s", only=None):
     e = dict(env, VERIF_REPLAY_PROP=pid, VERIF_SEED=str(seed), VERIF_REPLAY_BUDGET=budget)
     if only is not None:
         e["VERIF_REPLAY_ONLY"] = json.dumps(only)
+    extra = ["-race"] if pid == "C13" else []
     try:
-        r = subprocess.run(["go", "test", "-overlay", ovp, "-vet=off", "-count=1", "-v", "-timeout", "120s", "-run", "^TestVerifReplay$", "./spdxexp"],
-                           cwd=repo, env=e, capture_output=True, text=True, timeout=180)
+        r = subprocess.run(["go", "test", "-overlay", ovp, "-vet=off", "-count=1", "-v"] + extra + ["-timeout", "120s", "-run", "^TestVerifReplay$", "./spdxexp"],
+                           cwd=repo, env=e, capture_output=True, text=True, timeout=300)
     except subprocess.TimeoutExpired:
         return None, "timeout"
     finally:
         os.unlink(ovp)
+    if "WARNING: DATA RACE" in (r.stdout + r.stderr):
+        txt = (r.stdout + r.stderr)
+        i = txt.index("WARNING: DATA RACE")
+        return {"property": "C13", "call": "16 goroutines calling Satisfies / ExtractLicenses / ValidateLicenses over a shared allowed list (go test -race)",
+                "args": [], "observed": "data race reported by the Go race detector:\n" + txt[i:i + 1500], "expected": "no data race"}, txt[-2000:]
     for line in (r.stdout + r.stderr).splitlines():
         if line.strip().startswith("FOUND:"):
             try:
